@@ -347,26 +347,22 @@ Section WithCall.
   (* FunctionDef::call(this_value, args, …) of the function value, with the evaluator state *)
   Variable call : value -> value -> list value -> St -> outcome value * St.
 
-  (* the comparator closure of sort_by: both keys are computed on every comparison; any
-     failure (not a function, an error in either call, incomparable keys) is Ordering::Equal;
-     a panic inside the callback unwinds through the sort *)
+  (* the comparator closure of sort_by: the key of a, then the key of b; the first failing key
+     call ends the sort with that error (no further call is made); incomparable keys and a
+     non-function are Ordering::Equal; a panic inside the callback unwinds through the sort *)
   Definition sort_by_cmp (func a b : value) (st : St) : outcome comparison * St :=
     if is_function func then
       let '(result_a, st1) := call func func [a] st in
       match result_a with
-      | Panic => (Panic, st1)
-      | Unmodelled => (Unmodelled, st1)
-      | _ =>
+      | Ok val_a =>
           let '(result_b, st2) := call func func [b] st1 in
           match result_b with
-          | Panic => (Panic, st2)
-          | Unmodelled => (Unmodelled, st2)
-          | _ =>
-              match result_a, result_b with
-              | Ok val_a, Ok val_b => (Ok (cmp_or_eq val_a val_b), st2)
-              | _, _ => (Ok Eq, st2)
-              end
+          | Ok val_b => (Ok (cmp_or_eq val_a val_b), st2)
+          | Err => (Err, st2) | ErrDepth => (ErrDepth, st2)
+          | Panic => (Panic, st2) | Unmodelled => (Unmodelled, st2)
           end
+      | Err => (Err, st1) | ErrDepth => (ErrDepth, st1)
+      | Panic => (Panic, st1) | Unmodelled => (Unmodelled, st1)
       end
     else (Ok Eq, st).
 
